@@ -217,8 +217,25 @@ def run(ctx):
                                    'site': escape_site(out.exc)}, mech=f"special:{type(out.exc).__name__}@{escape_site(out.exc)}")
 
     # unsupported grammar: fails with TypeError/UnsupportedAnnotation, before any data is looked at
+    def has_pep604(x, depth=0):
+        import types as _types
+        if isinstance(x, _types.UnionType):
+            return True
+        if isinstance(x, dict):
+            return any(has_pep604(v, depth + 1) for v in x.values())
+        if isinstance(x, tuple):
+            return any(has_pep604(v, depth + 1) for v in x)
+        if hasattr(x, '__pane_info__'):
+            return any(has_pep604(f.type, depth + 1) for f in x.__pane_info__.fields) if depth < 4 else False
+        return depth < 6 and any(has_pep604(a, depth + 1) for a in t.get_args(x))
+
     def body_unsupported(i, rng, ty, T):
         desc, U = unsupported_types(rng) if rng.random() < 0.9 else dup_tag_type(rng)
+        if 'PEP604' in desc and not has_pep604(U):
+            # typing's alias cache answered `List[int | str]` with a `List[Union[str, int]]` made earlier in this process (they compare
+            # equal): what was built is a supported type, not the one this row is about
+            ctx.count('pep604_normalised_by_typing_cache')
+            return
         ctx.count('unsupported_checked')
         out = observe(env.make_converter, U)
         ok_exc = (TypeError, env.UnsupportedAnnotation)
